@@ -9,6 +9,10 @@ import TinsModel.Wire.App.Theorems
 import TinsModel.Wire.Wifi.Theorems
 import TinsModel.Wire.RegistryFacts
 import TinsModel.Wire.Coverage
+import TinsModel.Wire.RawCoverage
+import TinsModel.Wire.Raw.Wifi
+import TinsModel.Wire.Raw.Icmp6
+import TinsModel.Wire.Raw.Misc
 /-
   Property C01 — parsing untrusted bytes is memory-safe and fails only as malformed-packet.
   Generic part here; the per-class `*_parse_safe` theorems live in TinsModel/Wire/<Family>/Theorems.lean
@@ -74,6 +78,112 @@ theorem wire_modelled_safe (cls : String) (b : Bytes) (h : Wire.Coverage.safeMod
 
 /-- the rows concerned: every entry point the table marks `modelled` through the wire registry names such a class -/
 example : Wire.Coverage.safeModelled "IP" = true ∧ Wire.Coverage.safeModelled "ICMPv6" = true := by decide
+
+/-! ### raw-site coverage (the tables `Gen.RawSites.all` / `guards` are regenerated from the clang AST on every run) -/
+
+/-- clang parsed every translation unit and the scan found the definition of every entry point that is a root of the parse path -/
+theorem raw_scan_complete : Gen.RawSites.unparsed = [] := Wire.RawCoverage.scan_complete
+
+/-- **raw_sites_covered** — every raw memory access (pointer dereference / subscript / member access through a cast pointer,
+    memcpy / memcmp / memset / std::copy / foreign call with raw pointer operands, pointer cast, pointer arithmetic, hand-over of a
+    raw pointer to another function) in a function reachable from the construct-from-buffer entry points and the option decoders
+    has a disposition in `Wire/RawCoverage.lean`: the Lean model function that mirrors it with a fault-explicit read and the safety
+    theorem over it, or why it cannot leave the buffer, or `unmodelled`.  A raw access added to a parser — which leaves every model
+    and therefore `parse_any_safe` untouched — has none: this theorem then fails and the check reports the new site. -/
+theorem raw_sites_covered : ∀ s ∈ Gen.RawSites.all, (Wire.RawCoverage.disposition s).isSome :=
+  Wire.RawCoverage.rawSites_covered
+
+/-- **raw_guards_present** — every bounds check a disposition relies on (cited as a `Gen.RawSites.guards` key) is still a
+    condition of that function in the current source: removing or rewriting it is reported like a new raw access. -/
+theorem raw_guards_present :
+    ∀ g ∈ Wire.RawCoverage.citedGuards, (Gen.RawSites.guards.any (fun x => x.keyNat == g.n)) = true :=
+  Wire.RawCoverage.guards_present
+
+/-- the rows concerned are there: the table cites guards, and the generated table is not empty -/
+example : Wire.RawCoverage.citedGuards.length > 50 ∧ Gen.RawSites.all.length > 100 := by decide +kernel
+
+/-! ### the raw-pointer layer of the typed decoders (`TinsModel/Wire/Raw/*.lean`)
+
+  The typed option decoders walk `opt.data_ptr()` by hand; their family models are total functions over the option's bytes.
+  `Wire/Raw` mirrors the pointer code statement for statement with a fault-explicit read at every dereference and proves
+  `raw decoder = total decoder` for all byte strings — so the walk never leaves the option, and the value is the one the
+  correspondence compares with the real getter. -/
+
+/-- an `Out` value that is `ok` did not fault -/
+theorem noFault_of_eq_ok {α} {x : Out α} {v : α} (h : x = .ok v) : x.isFault = false := by rw [h]; rfl
+
+/-- a raw decoder that equals a total decoder of the family models (which have no `fault` outcome by construction: they never
+    call `rd` / `rdN` / `peek`) does not fault -/
+theorem noFault_of_eq_total {α} {x y : Out α} (h : x = y) (hy : y.isFault = false) : x.isFault = false := by rw [h]; exact hy
+
+/-- **raw_decoders_safe** — for ALL option contents `d` (the memory is exactly the option's `data_size()` bytes), the pointer walks of
+    the ICMPv6 typed decoders (`naack`, `lladdr`, `handover_key_req/reply`, `handover_assist_info` / `mobile_node_id`,
+    `dns_search_list`, and the `*stream.pointer()` peeks of `prefix_info` / `map`) stay inside the option: each equals `ok` of the total decoder of `Wire/Icmp/Icmp6.lean` -/
+theorem raw_decoders_safe_icmp6 (d : Bytes) :
+    (Wire.Raw.Icmp6.naack d).isFault = false ∧ (Wire.Raw.Icmp6.lladdr d).isFault = false ∧
+    (Wire.Raw.Icmp6.codeLen d).isFault = false ∧ (Wire.Raw.Icmp6.handoverReq d).isFault = false ∧
+    (Wire.Raw.Icmp6.handoverReply d).isFault = false ∧ (Wire.Raw.Icmp6.dnsSearch d).isFault = false ∧
+    (Wire.Raw.Icmp6.prefixInfo d).isFault = false ∧ (Wire.Raw.Icmp6.mapOpt d).isFault = false :=
+  ⟨noFault_of_eq_ok (Wire.Raw.Icmp6.naack_eq d), noFault_of_eq_ok (Wire.Raw.Icmp6.lladdr_eq d),
+   noFault_of_eq_ok (Wire.Raw.Icmp6.codeLen_eq d), noFault_of_eq_ok (Wire.Raw.Icmp6.handoverReq_eq d),
+   noFault_of_eq_ok (Wire.Raw.Icmp6.handoverReply_eq d), noFault_of_eq_ok (Wire.Raw.Icmp6.dnsSearch_eq d),
+   noFault_of_eq_ok (Wire.Raw.Icmp6.prefixInfo_eq d), noFault_of_eq_ok (Wire.Raw.Icmp6.mapOpt_eq d)⟩
+
+/-- the Dot11 management-frame decoders (`channel_switch`, `fh_pattern`, `tim`, `ibss_dfs`, `country`, `vendor_specific`, the rates
+    converter): raw walk = total decoder of `Wire/Wifi/Tagged.lean`, hence no fault -/
+theorem raw_decoders_safe_wifi (d : Bytes) :
+    (Wire.Raw.Wifi.channelSwitch d).isFault = false ∧ (Wire.Raw.Wifi.fhPattern d).isFault = false ∧
+    (Wire.Raw.Wifi.tim d).isFault = false ∧ (Wire.Raw.Wifi.ibssDfs d).isFault = false ∧
+    (Wire.Raw.Wifi.country d).isFault = false ∧ (Wire.Raw.Wifi.vendorFromBytes d).isFault = false ∧
+    (Wire.Raw.Wifi.rates d).isFault = false := by
+  refine ⟨?_, ?_, ?_, ?_, ?_, Wire.Raw.Wifi.vendorFromBytes_noFault d, noFault_of_eq_ok (Wire.Raw.Wifi.rates_eq d)⟩
+  · rw [Wire.Raw.Wifi.channelSwitch_eq]; unfold Wire.Wifi.Tagged.decodeChannelSwitch; split <;> rfl
+  · rw [Wire.Raw.Wifi.fhPattern_eq]; unfold Wire.Wifi.Tagged.decodeFhPattern; split <;> rfl
+  · rw [Wire.Raw.Wifi.tim_eq]; unfold Wire.Wifi.Tagged.decodeTim; split <;> rfl
+  · rw [Wire.Raw.Wifi.ibssDfs_eq]; unfold Wire.Wifi.Tagged.decodeIbssDfs
+    split
+    · rfl
+    · have : ∀ l, (Wire.Wifi.Tagged.dfsPairs l).isFault = false := by
+        intro l
+        induction l using Wire.Wifi.Tagged.dfsPairs.induct with
+        | case1 => rfl
+        | case2 => rfl
+        | case3 x y r ih =>
+          simp only [Wire.Wifi.Tagged.dfsPairs]
+          cases h : Wire.Wifi.Tagged.dfsPairs r with
+          | ok a => rfl
+          | throw e => rfl
+          | fault s => rw [h] at ih; simp [Out.isFault] at ih
+      have h := this (List.drop 7 d)
+      cases hx : Wire.Wifi.Tagged.dfsPairs (List.drop 7 d) with
+      | ok a => rfl
+      | throw e => rfl
+      | fault s => rw [hx] at h; simp [Out.isFault] at h
+  · rw [Wire.Raw.Wifi.country_eq]; unfold Wire.Wifi.Tagged.decodeCountry
+    split
+    · rfl
+    · split
+      split <;> rfl
+
+/-- the remaining decoders: the IP route options, the DHCPv6 class data, lists of IPv6 addresses, the four `extract_metadata`,
+    `hw_address_to_string`, `Utils::sum_range`, `Utils::crc32` (the last three for every `count ≤` what exists) -/
+theorem raw_decoders_safe_misc (d : Bytes) (n : Nat) (hn : n ≤ d.length) :
+    (Wire.Raw.Misc.route d).isFault = false ∧ (Wire.Raw.Misc.classDataRaw d).isFault = false ∧
+    (Wire.Raw.Misc.addr6List d).isFault = false ∧
+    Wire.Raw.Misc.MetaSafe (Wire.Raw.Misc.ipMetadata d) ∧ Wire.Raw.Misc.MetaSafe (Wire.Raw.Misc.tcpMetadata d) ∧
+    Wire.Raw.Misc.MetaSafe (Wire.Raw.Misc.ethMetadata d) ∧ Wire.Raw.Misc.MetaSafe (Wire.Raw.Misc.eapolMetadata d) ∧
+    (Wire.Raw.Misc.hwToString d n).isFault = false ∧ (Wire.Raw.Misc.sumRangeRaw d n).isFault = false ∧
+    (Wire.Raw.Misc.crc32Raw d n).isFault = false := by
+  refine ⟨?_, noFault_of_eq_ok (Wire.Raw.Misc.classDataRaw_eq d d.length (Nat.le_refl _)), Wire.Raw.Misc.addr6List_noFault d,
+    Wire.Raw.Misc.ipMetadata_safe d, Wire.Raw.Misc.tcpMetadata_safe d, Wire.Raw.Misc.ethMetadata_safe d,
+    Wire.Raw.Misc.eapolMetadata_safe d, Wire.Raw.Misc.hwToString_noFault d n hn,
+    noFault_of_eq_ok (Wire.Raw.Misc.sumRangeRaw_eq d n hn), noFault_of_eq_ok (Wire.Raw.Misc.crc32Raw_eq d n hn)⟩
+  rw [Wire.Raw.Misc.route_eq 0 0 d]; unfold Wire.Ip.Ip4.decodeRoute; split <;> rfl
+
+/-- non-vacuity: a DNS search list option with two domains goes through the raw walk, and a truncated label is refused -/
+example : Wire.Raw.Icmp6.dnsSearch [0, 0, 0, 0, 0, 60, 1, 97, 2, 98, 99, 0, 1, 100, 0] =
+    .ok (.val "60.612e6263,64") := by rfl
+example : Wire.Raw.Icmp6.dnsSearch [0, 0, 0, 0, 0, 60, 5, 97, 98] = .ok .notFound := by rfl
 
 /-- non-vacuity: a concrete operation sequence that succeeds and one that is rejected -/
 example : ∃ c', (Cursor.ofBytes [1, 2, 3, 4, 5]).run [.read 2, .peek 0 2, .shrink 2, .skip 2] = .ok c' := ⟨_, rfl⟩
